@@ -1,6 +1,7 @@
 (** C15, whole histories: the complete oracle [ok_C15] accepts the model's own
     trace for every valid set-up and every valid event list. *)
 From SV Require Export Port.MainC14 Port.OracleC15 Port.LemmasC15.
+From SV Require Import Port.MainC11b.
 
 (** * the TLV iterator inverts the serializer *)
 Lemma iter_encode_tlvs : forall ts fuel,
@@ -591,7 +592,10 @@ Proof.
   - rewrite (Hother _ _ Hs); [reflexivity|]. intros pp d pp' d' oo Hx. eapply send_delay_request_nofwd; eauto.
   - rewrite (Hother _ _ Hs); [reflexivity|]. intros pp d pp' d' oo Hx. eapply receipt_timer_nofwd; eauto.
   - rewrite (Hother _ _ Hs); [reflexivity|]. intros pp d pp' d' oo Hx. eapply filter_update_nofwd; eauto.
-  - rewrite (bmca_nofwd i i' o Hs). reflexivity.
+  - rewrite (bmca_nofwd i i' o Hs). cbn [andb].
+    destruct (forallb (fun s => negb (s =? 9)) (sn_states (snapshot_of i'))) eqn:Hns; cbn [andb]; [|reflexivity].
+    destruct (existsb (fun s => s =? 6) (sn_states (snapshot_of i'))) eqn:Hsm; [|reflexivity].
+    change (sn_ds (snapshot_of i')) with (i_ds i'). rewrite (MainC11b.bmca_gm_view i i' o Hs Hns Hsm). reflexivity.
   - inversion Hs; subst. reflexivity.
   - inversion Hs; subst. reflexivity.
   - inversion Hs; subst. reflexivity.
